@@ -156,7 +156,15 @@ class Run:
             elif kind == "send_from":
                 was_closed = ch._closed
                 items = [Item((tid, k + i)) for i in range(op[1])]
-                await ch.send_from(items, close=op[2])
+                if (tid + k) % 2:
+                    # every other send_from gets an ASYNC iterable as its source (the other branch of send_from); a generator
+                    # that never suspends adds no scheduling point, so the model's step granularity is unchanged
+                    async def _src(items=items):
+                        for it in items:
+                            yield it
+                    await ch.send_from(_src(), close=op[2])
+                else:
+                    await ch.send_from(items, close=op[2])
                 k += op[1]
                 if was_closed:
                     self.bad_send_after_close.append((tid, idx))
